@@ -25,8 +25,10 @@ VERIF = os.path.dirname(os.path.dirname(os.path.abspath(__file__)))
 REPO = os.environ.get("ECHSE_REPO", "/repo")
 LEAN = os.path.join(VERIF, "lean")
 HARNESS = os.path.join(VERIF, "harness")
-EVIDENCE = os.path.join(VERIF, "evidence")
-REPLAYS = os.path.join(VERIF, "replays")
+# VERIF_OUT redirects evidence and replays (used when the checks are pointed at a deliberately broken tree, tools/seed_sweep.sh)
+_OUT = os.environ.get("VERIF_OUT", VERIF)
+EVIDENCE = os.path.join(_OUT, "evidence")
+REPLAYS = os.path.join(_OUT, "replays")
 CORPUS = os.path.join(VERIF, "corpus")
 MODEL_EXE = os.path.join(LEAN, ".lake", "build", "bin", "echsemodel")
 NCPU = os.cpu_count() or 4
